@@ -40,10 +40,12 @@ struct Gen<'a> {
 
 impl<'a> Gen<'a> {
     fn qoperand(&mut self) -> String {
-        match self.r.below(4) {
+        match self.r.below(5) {
             0 => "q0".into(),
             1 => format!("qr[{}]", self.r.below(3)),
             2 => format!("${}", self.r.below(3)),
+            // a register of length one is still a register: its only element is indexed
+            3 => "q1r[0]".into(),
             _ => "q1".into(),
         }
     }
@@ -281,7 +283,7 @@ fn build(seed: u64) -> Prog {
     if stdlib {
         text.push_str("include \"stdgates.inc\";\n");
     }
-    text.push_str("qubit q0;\nqubit q1;\nqubit[3] qr;\nbit c;\nbit[2] cr;\nint i;\nconst int k = 1;\nuint mu;\nconst uint ku = 1;\nuint[8] mu8;\nconst uint[8] ku8 = 1;\nconst float kf = 1.5;\nbool mb;\nconst bool kb = true;\nfloat f;\nduration d;\nangle a;\n");
+    text.push_str("qubit q0;\nqubit q1;\nqubit[3] qr;\nqubit[1] q1r;\nbit c;\nbit[2] cr;\nint i;\nconst int k = 1;\nuint mu;\nconst uint ku = 1;\nuint[8] mu8;\nconst uint[8] ku8 = 1;\nconst float kf = 1.5;\nbool mb;\nconst bool kb = true;\nfloat f;\nduration d;\nangle a;\n");
     // user gates with 0-4 parameters and 1-4 qubits
     let ng = g.r.below(3);
     for n in 0..ng {
